@@ -844,12 +844,14 @@ func fixedCases() []*caseT {
 // generated only in the thorough tier (first seed) and run concurrently with everything else.
 func slowCases() []*caseT {
 	var out []*caseT
-	// token bucket: burst larger than what the idle time refills. Drain it, wait for the cleanup, go on.
-	s := &caseT{Kind: "S", Rate: 1, Burst: 10000, EpochAgoSec: 7200}
-	for i := 0; i < 10001; i++ {
+	// token bucket: burst larger than what the idle time refills. Take 4500 of 5000 tokens at a scripted
+	// instant 3700 s before now, wait for the cleanup (the entry is then idle for ~4000 s, which refills
+	// 4000 < 4500 tokens), go on one scripted second later: 501 tokens are there — not a fresh 5000.
+	s := &caseT{Kind: "S", Rate: 1, Burst: 5000, EpochAgoSec: 3700}
+	for i := 0; i < 4500; i++ {
 		s.Calls = append(s.Calls, callT{Key: "k"})
 	}
-	for i := 0; i < 5; i++ {
+	for i := 0; i < 6; i++ {
 		s.Calls = append(s.Calls, callT{Key: "k", Now: 512, Pause: i == 0})
 	}
 	out = append(out, s)
